@@ -9,7 +9,7 @@ and counted; a variant that applies and is not detected prints CHECKER-WARNING (
 that of the real tree; --strict turns it into exit 2), never a property violation.  The result is added to evidence/<prop>.json under coverage.selftest.
 
 usage: selftest.py <Cxx> [repo]"""
-import json, os, subprocess, sys, tempfile, shutil, glob
+import json, os, subprocess, sys, tempfile, shutil, glob, re
 from concurrent.futures import ThreadPoolExecutor
 
 ROOT = os.path.dirname(os.path.dirname(os.path.abspath(__file__)))
@@ -21,6 +21,18 @@ def main():
     corpus = []
     for f in sorted(glob.glob(ROOT + "/lint/mutants/*.json")):
         corpus += [m for m in json.load(open(f)) if m["prop"] == prop]
+    # multi-hunk variants: the confirmed seeded changes (must be reported) and the behaviour-preserving
+    # refactorings (must stay silent), each as a patch applied to copies of the files it touches
+    for d in sorted(glob.glob(ROOT + "/seeded/%s-*/" % prop)):
+        try:
+            meta = json.load(open(d + "meta.json"))
+        except Exception:
+            continue
+        if meta.get("checker", {}).get("status", "").startswith("missed"):
+            continue  # recorded in DESIGN.md as undetected on purpose
+        corpus.append({"id": "seed:" + os.path.basename(d.rstrip("/")), "prop": prop, "patch": d + "patch.diff", "expect": "any"})
+    for d in sorted(glob.glob(ROOT + "/refactors/%s-*/" % prop)):
+        corpus.append({"id": "refactor:" + os.path.basename(d.rstrip("/")), "prop": prop, "patch": d + "patch.diff", "expect": "silent"})
     work = tempfile.mkdtemp(prefix="selftest-", dir=os.path.join(ROOT, "evidence"))
     try:
         results = run_all(prop, repo, corpus, work)
@@ -36,7 +48,7 @@ def main():
     try:
         e = json.load(open(ev))
         e.setdefault("coverage", {})["selftest"] = {
-            "what": "single-edit variants of the current tree analysed through a source overlay; each must make the named rule report",
+            "what": "variants of the current tree analysed through a source overlay: single edits (the named rule must report), confirmed seeded changes (some rule must report), behaviour-preserving refactorings (no rule may report); patches that no longer apply to the current tree are skipped and counted",
             "variants": len(results), "detected": len(detected), "silent_ok": len(silent),
             "skipped_anchor_text_gone": [r["id"] for r in skipped],
             "undetected": [r["id"] for r in missed],
@@ -52,6 +64,28 @@ def main():
     # recorded variant into harmless code; the strict form is what is run before committing /verif
     sys.exit(2 if (missed and strict) else 0)
 
+def overlay_from_patch(patch, repo, work):
+    """Apply a patch to copies of the files it names; returns {path in repo: new content} or None."""
+    text = open(patch, encoding="utf-8").read()
+    files = re.findall(r'^\+\+\+ b/(\S+)', text, re.M)
+    if re.search(r'^deleted file mode', text, re.M):
+        return None
+    src = os.path.join(work, "src")
+    for rel in files:
+        dst = os.path.join(src, rel)
+        os.makedirs(os.path.dirname(dst), exist_ok=True)
+        if os.path.exists(os.path.join(repo, rel)):
+            shutil.copy(os.path.join(repo, rel), dst)
+    r = subprocess.run(["patch", "-p1", "-s", "-f", "-F0", "-d", src, "-i", patch], capture_output=True, text=True)
+    if r.returncode != 0:
+        return None
+    ov = {}
+    for rel in files:
+        p = os.path.join(src, rel)
+        if os.path.exists(p) and rel.endswith(".go"):
+            ov[os.path.join(repo, rel)] = open(p, encoding="utf-8").read()
+    return ov
+
 def run_all(prop, repo, corpus, work):
     def one(ix_m):
         ix, m = ix_m
@@ -66,9 +100,15 @@ def run_all(prop, repo, corpus, work):
             files[path] = src.replace(old, new) if all_ else src.replace(old, new, 1)
             return True
         try:
-            ok = edit(m["file"], m["old"], m["new"], m.get("replace_all", False))
-            for ex in m.get("extra", []):
-                ok = ok and edit(ex["file"], ex["old"], ex["new"])
+            if "patch" in m:
+                ov = overlay_from_patch(m["patch"], repo, os.path.join(work, "p%d" % ix))
+                ok = ov is not None
+                if ok:
+                    files.update(ov)
+            else:
+                ok = edit(m["file"], m["old"], m["new"], m.get("replace_all", False))
+                for ex in m.get("extra", []):
+                    ok = ok and edit(ex["file"], ex["old"], ex["new"])
         except FileNotFoundError:
             ok = False
         if not ok:
@@ -87,7 +127,8 @@ def run_all(prop, repo, corpus, work):
         if m["expect"] == "silent":
             res["status"] = "silent-ok" if r.returncode == 0 else "missed"
         else:
-            hit = [l for l in fired if ("rule=" + m["expect"]) in l]
+            want = "rule=" if m["expect"] == "any" else "rule=" + m["expect"]
+            hit = [l for l in fired if want in l]
             good = r.returncode == 1 and hit
             if "CHECKER-ERROR" in out and not m.get("allow_error", False):
                 # a variant that no longer type-checks on today's tree is not a sensitivity result
